@@ -18,12 +18,12 @@ notes = {
  "C01/m2": "caught after the pointer-argument grid",
  "C01/m1": "caught by C06 (module-scope constant evaluation), not by C01",
  "C04/m2": "caught by C14 (pipeline constants lane)",
- "C02/m2": "missed: needs a numeric coincidence of type ids that the generated modules did not produce",
+ "C02/m2": "caught at the thorough tier only (the numeric coincidence of type ids needs thousands of modules); signature templates were added to raise the rate",
  "C03/m1": "missed: needs matCx2 values in HLSL (gated off for a known finding)",
- "C03/m2": "missed at quick: the round-one C03/m1 shape, thorough tier only",
+ "C03/m2": "caught at the thorough tier only (dynamic column index of a non-square matrix under RestrictIndexing)",
  "C05/m1": "caught after the continue-in-switch gate was narrowed to the F78 shape and the control-nesting profile with nesting scripts was added",
  "C06/m1": "caught after f32 % was admitted in the constant contexts of C06 (kept out of the run-time form, F31)",
- "C15/m2": "missed: needs ptr<storage> parameters (not generated)",
+ "C15/m2": "caught after split MSL policies (Index unchecked, Buffer protected) and ptr<storage>-parameter access-path templates were added",
  "C18/m2": "missed: indistinguishable from F58 (whole-class line)",
 }
 rows = []
